@@ -33,13 +33,15 @@ def plan(tier, seed):
     nmax = 4 if tier == 'quick' else 5
     chunks = [{'kind': 'api', 'n': n, 'mod': m, 'rem': r} for n, m in ((2, 1), (3, 2), (4, 16), (5, 64))
               if n <= nmax for r in range(m)]
+    if nmax < 5:
+        chunks.append({'kind': 'api-extra', 'n': 5, 'mod': 1, 'rem': 0})
     chunks += [{'kind': 'api-pairs', 'n': 3 if tier == 'quick' else 4, 'mod': 4, 'rem': r} for r in range(4)]
     chunks += [{'kind': 'cli', 'mod': 8, 'rem': r, 'n': 3 if tier == 'quick' else 4} for r in range(8)]
     return {
         'chunks': chunks,
         'rule': 'grammars extracted from every labelled hierarchy (labels {A,B}, <= 1 unary) over n <= %d tokens '
                 '(words incl. ambiguous, capitalised and non-ASCII ones), raw and binarized in %d modes, written as '
-                'PMCFG / RCG / LoPar x lex_in_grammar on/off x {utf-8, latin-1}; two-sentence treebanks (every ordered pair of all-A hierarchies, so that one production has a continuous and a discontinuous linearization); decoded by independent decoders '
+                'PMCFG / RCG / LoPar x lex_in_grammar on/off x {utf-8, latin-1}; two-sentence treebanks (every ordered pair of all-A hierarchies, so that one production has a continuous and a discontinuous linearization); quick: five 5-token hierarchies with interleaved discontinuous children; decoded by independent decoders '
                 'and (RCG) by the tool reader; CLI `treetools grammar` from export and from RCG sources. '
                 'non-trivial = distinct (grammar, mode, format, option) cases with a count > 1 or fan-out > 1' % (nmax, len(MODES) - 1),
         'bound': 'trees n <= %d; %d modes; 3 formats' % (nmax, len(MODES)),
@@ -444,12 +446,25 @@ def pair_banks(n):
                model.MT(2, model.mk_tokens(nb, words=[WORDS[(i + 2) % len(WORDS)] for i in range(nb)], pos=['x'] * nb), rb)]
 
 
+EXTRA_SHAPES = [((1, 4), (2, 5), 3), ((1, 3, 5), 2, 4), ((1, 4), 2, (3, 5)), ((1, 3), (2, 4), 5), (((1, 4), 2), (3, 5))]
+
+
+def extra_banks():
+    """Five-token trees with interleaved discontinuous children (rank-3 rules whose yield alternates)."""
+    for k, sh in enumerate(EXTRA_SHAPES):
+        for mt in labelings(sh):
+            for i, tk in enumerate(mt.toks):
+                tk['word'] = WORDS[(i + 3 * k) % len(WORDS)]
+            yield [mt]
+
+
 def run_chunk(chunk):
     res = Result()
     with quiet():
-        if chunk['kind'] in ('api', 'api-pairs'):
+        if chunk['kind'] in ('api', 'api-pairs', 'api-extra'):
             bank = None
-            for i, bank in enumerate(banks(chunk['n']) if chunk['kind'] == 'api' else pair_banks(chunk['n'])):
+            gen = {'api': lambda: banks(chunk['n']), 'api-pairs': lambda: pair_banks(chunk['n']), 'api-extra': extra_banks}[chunk['kind']]
+            for i, bank in enumerate(gen()):
                 if i % chunk['mod'] != chunk['rem']:
                     continue
                 js = [m.to_json() for m in bank]
